@@ -45,6 +45,9 @@ fn after_step(w: &mut World, s: &mut State, st: &Step) -> Result<(), Violation> 
         let origin = w.wire[wire].origin.clone();
         let genuine = matches!(origin, Origin::Genuine | Origin::Duplicate(_));
         // (b) whatever is written was read from an interface by the peer that sent this very datagram
+        if st.writes > 0 && w.wire[wire].from_node == Some(i) {
+            return Err(Violation::new("tamper-evident", "own-datagram-delivered-to-own-interface", format!("n{} wrote {} frame(s) to its interface for a datagram it had sealed itself and that came back to it", i, st.writes)));
+        }
         for k in 0..st.writes {
             w.count("c02_device_writes_checked");
             let dw = &w.dev_writes[st.first_write + k];
@@ -91,6 +94,14 @@ fn scenario(w: &mut World, ctx: &RunCtx, states: &mut Vec<u64>) -> Result<(), Vi
     let fam = w.ch.choose("addr_family", 2) as u8;
     let sweep_len = (ctx.index % 301) as usize;
     let x = mesh::unknown_addr(3);
+    // reflection by the network itself: the last node is told to dial an address that leads back to it (its datagrams
+    // to Y come back from Z and vice versa); nothing it seals may ever be opened by itself
+    let hairpin = w.ch.chance("hairpin_self_dial", 150);
+    let hp_y = crate::net::mapped_addr(std::net::SocketAddr::new(std::net::IpAddr::V4(std::net::Ipv4Addr::new(198, 51, 100, 1)), 3210));
+    let hp_z = crate::net::mapped_addr(std::net::SocketAddr::new(std::net::IpAddr::V4(std::net::Ipv4Addr::new(198, 51, 100, 2)), 3210));
+    if hairpin {
+        w.count("c02_hairpin_self_dials");
+    }
     for i in 0..n {
         let mut c = mesh::tun_node(i);
         c.key = k;
@@ -103,7 +114,16 @@ fn scenario(w: &mut World, ctx: &RunCtx, states: &mut Vec<u64>) -> Result<(), Vi
             // an address that never answers: node 0 stays in "handshake pending" towards it
             c.peers.push(super::world::addr_text(x));
         }
+        if hairpin && i == n - 1 {
+            c.peers.push(super::world::addr_text(hp_y));
+        }
         w.add_node(c, fam);
+        if hairpin && i == n - 1 {
+            w.aliases.insert(hp_y, i);
+            w.aliases.insert(hp_z, i);
+            w.alias_src.insert(hp_y, hp_z);
+            w.alias_src.insert(hp_z, hp_y);
+        }
     }
     let mut s = State { snaps: (0..n).map(|_| None).collect(), tampered: BTreeMap::new(), frames_sent: BTreeMap::new() };
     for i in 0..n {
@@ -182,6 +202,15 @@ fn scenario(w: &mut World, ctx: &RunCtx, states: &mut Vec<u64>) -> Result<(), Vi
             }
         }
         r?;
+        // ---- with a path back to itself: a packet for the node's own address must not come back through the overlay
+        if hairpin && w.ch.chance("packet_to_own_address", 300) {
+            counter += 1;
+            let mo = mesh::marker(w, counter);
+            let f = mesh::ipv4_packet(mesh::tun_ip(n - 1), mesh::tun_ip(n - 1), &mo);
+            let at = w.now_ms + 1;
+            w.schedule_frame(at, n - 1, f);
+            w.count("c02_packets_to_own_address");
+        }
         // ---- tamper with a sealed datagram that is on the wire now (the data datagram or any other recent one)
         let sealed: Vec<usize> = (first_wire.saturating_sub(6)..w.wire.len())
             .filter(|id| {
@@ -287,6 +316,71 @@ fn scenario(w: &mut World, ctx: &RunCtx, states: &mut Vec<u64>) -> Result<(), Vi
             }
         }
         r?;
+    }
+    // ---- a datagram sealed for the previous connection of the same two addresses: the sender crashes and comes back,
+    // a new handshake replaces the connection, and a datagram of the old one that the network had held back arrives
+    if w.ch.chance("previous_connection", 300) {
+        let cands: Vec<(usize, usize)> = connected.iter().copied().filter(|(a, b)| a > b && !plain_pair(w, *a, *b) && !(hairpin && *a == n - 1)).collect();
+        if !cands.is_empty() {
+            let (a, b) = *w.ch.pick("previous_connection_pair", &cands);
+            // a frame read at a while the path to b is cut: sealed, on the wire record, never delivered
+            w.partition(a, b, false);
+            counter += 1;
+            let mh = mesh::marker(w, counter);
+            let f = mesh::ipv4_packet(mesh::tun_ip(a), mesh::tun_ip(b), &mh);
+            let first_wire = w.wire.len();
+            let at = w.now_ms + 1;
+            w.schedule_frame(at, a, f);
+            let until = at + 5;
+            let mut r = Ok(());
+            while let Some(st) = w.step(until) {
+                r = after_step(w, &mut s, &st);
+                if r.is_err() {
+                    break;
+                }
+            }
+            r?;
+            let held: Option<usize> = (first_wire..w.wire.len()).find(|id| {
+                let r = &w.wire[*id];
+                r.from_node == Some(a) && w.node_by_addr(r.dst) == Some(b) && matches!(r.cause, Cause::Dev(_)) && !World::is_init_datagram(&r.data) && r.dropped.is_some()
+            });
+            w.heal_all();
+            if let Some(id) = held {
+                let d = w.wire[id].data.clone();
+                let (osrc, odst) = (w.wire[id].src, w.wire[id].dst);
+                w.crash_node(a);
+                s.snaps[a] = None;
+                let pause = w.ch.choose("previous_connection_down_ms", 2_000) as u64;
+                let until = w.now_ms + pause;
+                let mut r = Ok(());
+                while let Some(st) = w.step(until) {
+                    r = after_step(w, &mut s, &st);
+                    if r.is_err() {
+                        break;
+                    }
+                }
+                r?;
+                let st = w.start_node(a);
+                after_step(w, &mut s, &st)?;
+                let mut err = None;
+                let deadline = w.now_ms + 10_000;
+                let ok = mesh::run_until_connected(w, &[(a, b), (b, a)], deadline, |w, st| after_step(w, &mut s, st)).unwrap_or_else(|e| {
+                    err = Some(e);
+                    false
+                });
+                if let Some(e) = err {
+                    return Err(e);
+                }
+                if ok {
+                    let delay = 1 + w.ch.choose("held_back_delay_ms", 3_000) as u64;
+                    let wid = w.inject(osrc, odst, (*d).clone(), delay, "sealed-for-previous-connection");
+                    s.tampered.insert(wid, "sealed-for-previous-connection");
+                    w.count("c02_previous_connection_datagrams");
+                } else {
+                    w.count("c02_previous_connection_not_reestablished");
+                }
+            }
+        }
     }
     // ---- afterwards (two ticks later) untouched traffic still gets through, byte-identical, exactly once
     let until = w.now_ms + 5_000;
